@@ -1,4 +1,5 @@
 import GdcVerif.Lemmas.C17
+import GdcVerif.Lemmas.Rle
 /-!
   C17 — encoders reject unrepresentable input.
 
@@ -294,6 +295,38 @@ theorem rle_stream_implies_representable (i : Rle.Info) (src : Array Rle.Byte) (
     · rename_i hg
       exact ⟨by omega, by omega, by omega, hne⟩
 
+/-- whenever a stream is returned — ANY frame description, ANY source buffer — it is even and at most
+    0xFFFFFFFE bytes long: every segment offset fits the 32-bit field the header gives it and the frame fits a
+    DICOM item (the guard added by the repair of `rle-offsets-beyond-4gib`; before it `uint32(buffer.Len())`
+    wrapped silently and a stream beyond 4 GiB carried a non-ascending offset table) -/
+theorem rle_stream_fits_32bit (i : Rle.Info) (src : Array Rle.Byte) (enc : List Rle.Byte)
+    (h : Rle.encodeFrame i src = .ok enc) :
+    enc.length ≤ Rle.maxEncodedFrameLength ∧ enc.length % 2 = 0 := by
+  unfold Rle.encodeFrame at h
+  split at h
+  · cases h
+  · split at h
+    · cases h
+    · rename_i hg
+      split at h
+      · cases h
+      · rename_i body offs oob heq
+        have hoob : oob = false := encodeSegments_oob i src _ _ _ _ _ _ heq
+        have hfit := encodeSegments_fits i src _ _ _ _ _ _ heq (by decide)
+        have hfit1 : 64 + body.length ≤ Rle.maxEncodedFrameLength := hfit.1
+        have hfit2 : offs.length = 0 + i.numberOfSegments := hfit.2
+        subst hoob
+        simp only [Bool.false_eq_true, ↓reduceIte] at h
+        injection h with h
+        subst h
+        have hmax : Rle.maxEncodedFrameLength = 4294967294 := rfl
+        have hlen : (Rle.le32 offs.length ++
+            (offs ++ List.replicate (15 - offs.length) 0).flatMap Rle.le32).length = 64 := by
+          simp only [List.length_append, Rle.le32_length, Rle.flatMap_le32_length, List.length_replicate]
+          omega
+        rw [List.length_append, hlen]
+        split <;> rename_i hp <;> (try simp only [List.length_append, List.length_cons, List.length_nil]) <;> omega
+
 /-- regression anchor (was FINDING `rle-more-than-15-segments`, fixed by 1dbcb53):
     BitsAllocated 32 × SamplesPerPixel 4 = 16 segments is now an error, not an `offsets[15]` panic -/
 theorem rle_16_segments_rejected :
@@ -308,7 +341,14 @@ theorem rle_degenerate_rejected :
 
 /-- non-vacuity: an ordinary frame is encoded (15-plane frames are exercised on the real code and the model by the `rle-enc` lines) -/
 example : Rle.encodeFrame { width := 2, height := 1, bitsAllocated := 8, spp := 1, planar := 0 } #[7, 7] ≠ .panic ∧
-    Rle.encodeFrame { width := 2, height := 1, bitsAllocated := 8, spp := 1, planar := 0 } #[7, 7] ≠ .err := by decide
+    Rle.encodeFrame { width := 2, height := 1, bitsAllocated := 8, spp := 1, planar := 0 } #[7, 7] ≠ .err := by
+  -- (the size guard compares the length of the encoded segments, built by well-founded recursion: not a `decide`)
+  obtain ⟨enc, he⟩ := Rle.rle_encode_ok' { width := 2, height := 1, bitsAllocated := 8, spp := 1, planar := 0 }
+    (by decide) (by decide) #[7, 7] (by decide)
+  rw [he]
+  constructor
+  · intro h; cases h
+  · intro h; cases h
 
 /-! ## DICOM adapters: `Validate` normalises instead of rejecting — what reaches `Encode` -/
 
